@@ -9,12 +9,15 @@ package main
 // on the copy.
 
 import (
+	"encoding/json"
 	"fmt"
 	"io"
 	"os"
+	"os/exec"
 	"path/filepath"
 	"regexp"
 	"strings"
+	"syscall"
 
 	"verifsim"
 )
@@ -48,6 +51,53 @@ func copyTree(src, dst string) error {
 		_, err = io.Copy(out, in)
 		return err
 	})
+}
+
+func digestTree(root string) map[string]string {
+	out := map[string]string{}
+	for _, f := range listTree(root) {
+		b, err := os.ReadFile(filepath.Join(root, f))
+		if err != nil {
+			out[f] = "unreadable"
+			continue
+		}
+		out[f] = fmt.Sprintf("%d:%016x", len(b), verifsim.HashString(string(b)))
+	}
+	return out
+}
+
+// validateKill repeats the run in a child process that SIGKILLs itself at the chosen crash
+// point and compares the directory the kernel leaves behind with the in-process crash copy:
+// this validates the "crash copy = kill -9 state" equivalence the whole unit rests on.
+// A mismatch is a defect of the harness, not of the daemon: it panics (exit 2).
+func validateKill(r *verifsim.Run, step int, want map[string]string) {
+	dir, err := os.MkdirTemp(scratchRoot(), "vkill")
+	if err != nil {
+		panic(err)
+	}
+	defer os.RemoveAll(dir)
+	tape, _ := json.Marshal(r.Values())
+	tf := filepath.Join(dir, "tape.json")
+	os.WriteFile(tf, tape, 0644)
+	root := filepath.Join(dir, "root")
+	os.MkdirAll(root, 0755)
+	cmd := exec.Command(os.Args[0], "-test.run", "^TestVerif$", "-test.timeout", "120s")
+	cmd.Env = append(os.Environ(), "VERIF_CHILD_TAPE="+tf, fmt.Sprintf("VERIF_KILL_AT=%d", step), "VERIF_FIXED_ROOT="+root, "VERIF_OUT=", "VERIF_REPLAY=")
+	err = cmd.Run()
+	killed := false
+	if ee, ok := err.(*exec.ExitError); ok {
+		if ws, ok := ee.Sys().(syscall.WaitStatus); ok && ws.Signaled() && ws.Signal() == syscall.SIGKILL {
+			killed = true
+		}
+	}
+	if !killed {
+		panic(fmt.Sprintf("real-kill validation: the child did not die by SIGKILL at step %d (err=%v)", step, err))
+	}
+	got := digestTree(filepath.Join(root, "out"))
+	if fmt.Sprint(got) != fmt.Sprint(want) {
+		panic(fmt.Sprintf("real-kill validation FAILED at step %d: kill -9 left %v, the in-process crash copy was %v", step, got, want))
+	}
+	r.Probe("real-kill-matches-crash-copy")
 }
 
 func runCCrash(r *verifsim.Run) {
@@ -89,6 +139,12 @@ func runCCrash(r *verifsim.Run) {
 	}
 	seen := map[string]int64{}
 	nCrash, nObs := 0, 0
+	killAt := -1 // child mode: kill -9 ourselves at this step
+	if v := os.Getenv("VERIF_KILL_AT"); v != "" {
+		fmt.Sscanf(v, "%d", &killAt)
+	}
+	killStep := -1 // parent: the crash point that will be repeated with a real SIGKILL
+	var killDigest map[string]string
 	crashRoot, err := os.MkdirTemp(scratchRoot(), "vk")
 	if err != nil {
 		panic(err)
@@ -136,6 +192,14 @@ func runCCrash(r *verifsim.Run) {
 			return
 		}
 		nCrash++
+		if killAt >= 0 && s.Steps == killAt {
+			syscall.Kill(os.Getpid(), syscall.SIGKILL) // child of the real-kill validation: die here, for real
+			select {}
+		}
+		if killStep < 0 && inProgress && r.Tier == "thorough" && killAt < 0 {
+			killStep = s.Steps
+			killDigest = digestTree(outDir)
+		}
 		if inProgress {
 			r.Probe("crash-with-recording-in-progress")
 		}
@@ -193,6 +257,9 @@ func runCCrash(r *verifsim.Run) {
 		if d.Err != "" {
 			r.Violate("C10", "C10.incomplete-cptv", "final:"+debrisPattern(f), "%s does not decode: %s", f, d.Err)
 		}
+	}
+	if killStep >= 0 && !r.Replay {
+		validateKill(r, killStep, killDigest)
 	}
 	if nCrash > 0 {
 		r.Nontrivial(fmt.Sprintf("%016x:%d", res.Sig, nCrash))
